@@ -198,6 +198,13 @@ Definition config_reply_ok (m : cmsg) (sent : val) : bool :=
       && (((u b 16 4 =? want) && (plen =? want)) || ((u b 16 4 =? 0) && (plen =? 0)))
   | _ => false
   end.
+(* C01: in the answer to SET_DEVICE_STATE_FD bit 8 ("no descriptor comes with this reply") is set exactly when no
+   descriptor is attached; bits 0..7 carry the error indication *)
+Definition device_state_reply_ok (sent : val) : bool :=
+  match sent with
+  | VL [VH h; VL fds] => Bool.eqb (hasb (u (hex_bytes h) 12 8) 256) (match fds with [] => true | _ => false end)
+  | _ => false
+  end.
 Definition call_name (c : val) : string := match c with VL (VS n :: _) => n | _ => "" end.
 
 (* walk the clean history; [results], [calls], [sent] are what the implementation showed.
@@ -255,7 +262,8 @@ Fixpoint walk (cfg_features : N) (s : nstate) (msgs : list cmsg) (results : list
                           (* C07: the answer to GET_PROTOCOL_FEATURES always offers REPLY_ACK, whatever the device offers
                              and whatever was negotiated before *)
                           and_then (negb (m_code m =? 15) || hasb (ack_value x) PF_REPLY_ACK) 7
-                            (and_then (negb (m_code m =? 24) || config_reply_ok m x) 1
+                            (and_then ((negb (m_code m =? 24) || config_reply_ok m x)
+                                       && (negb (m_code m =? 42) || device_state_reply_ok x)) 1
                                (* a reply that is one (REPLY set, version 1) but carries further flag bits is wrongly
                                   encoded (C01) as much as it breaks the reply discipline (C04) *)
                                (and_then (response_flags_exact x || negb (response_flags_plausible x)) 14
